@@ -4433,9 +4433,13 @@ func (c *linkerContext) convertStmtsForChunk(sourceIndex uint32, stmtList *stmtL
 			} else {
 				if record.SourceIndex.IsValid() {
 					if otherRepr := c.graph.Files[record.SourceIndex.GetIndex()].InputFile.Repr.(*graph.JSRepr); otherRepr.Meta.Wrap == graph.WrapESM {
-						stmtList.insideWrapperPrefix = append(stmtList.insideWrapperPrefix, js_ast.Stmt{Loc: stmt.Loc,
-							Data: &js_ast.SExpr{Value: js_ast.Expr{Loc: stmt.Loc, Data: &js_ast.ECall{
-								Target: js_ast.Expr{Loc: stmt.Loc, Data: &js_ast.EIdentifier{Ref: otherRepr.AST.WrapperRef}}}}}})
+						value := js_ast.Expr{Loc: stmt.Loc, Data: &js_ast.ECall{
+							Target: js_ast.Expr{Loc: stmt.Loc, Data: &js_ast.EIdentifier{Ref: otherRepr.AST.WrapperRef}}}}
+						if otherRepr.Meta.IsAsyncOrHasAsyncDependency {
+							// Wait for the other module like an "import" statement does
+							value.Data = &js_ast.EAwait{Value: value}
+						}
+						stmtList.insideWrapperPrefix = append(stmtList.insideWrapperPrefix, js_ast.Stmt{Loc: stmt.Loc, Data: &js_ast.SExpr{Value: value}})
 					}
 				}
 
